@@ -259,7 +259,12 @@ CLAIMED = {
              "(mz_found and its parts). Version: parsing any string of the documented shape returns its fields (version_parse_format); the "
              "export-stamp / max-enum precedence is as stated (version_precedence, config_version). Both tables are monotone in (tuple, date), of the "
              "documented shape, and their texts parse to what the real BeaconVersion computes - rechecked by kernel evaluation on the regenerated "
-             "tables at every run.",
+             "tables at every run. The six pe.py helpers (find_mz_offset, find_architecture, find_compile_stamps, find_magic_mz, find_magic_pe, "
+             "find_stage_prepend_append), BeaconVersion.from_pe_export_stamp / from_max_setting_enum and the property BeaconConfig.version are "
+             "translated from their source text on every run (tools/gen/py_pe.py -> Gen/PyPe.lean; cstruct reads over introspected layouts, the "
+             "file object threaded) and proved equal to the model for every file content, position and kind, every start_offset (None or any int) "
+             "and every int maxrange - result AND final file position (C18Gen.gen_*, 25 theorems; stage_call_at, mz_found_at, "
+             "pe_position_independent, version_precedence restated).",
         note="Stage theorems hold for every start_offset and maxrange (stage = junk ++ P ++ I searched from |junk|: *_found_at, mz_found_at, "
              "stage_call_at incl. the exact final file position; the reported offset is absolute and the prepend includes the bytes before "
              "start_offset - modelled as coded), results are position-independent (pe_position_independent) and histories of helper calls are "
@@ -267,7 +272,9 @@ CLAIMED = {
              "for '%b %d, %Y', datetime validity, int(), bytes.find/rstrip and file objects are modelled and exercised, not verified; struct layouts "
              "and both tables are regenerated from the imported package (tools/gen/pestruct.py, version.py). Correspondence ~20k quick / ~136k thorough "
              "on BytesIO and real files incl. truncations at every struct boundary, all table keys +-1, every key pair.",
-        design="§4 C18",
+        design="§4 C18, §12.8",
+        technique="Lean 4 theorems about an executable model; model tied to the code by source-to-Lean translation (proved equal) and by a "
+                  "model/implementation correspondence check",
     ),
     "C10": dict(
         text="For every grammar table satisfying the decidable obligations PrintWF/IdsOK/KwClean/TerminatedWF (re-proved by decide +kernel against "
@@ -352,13 +359,20 @@ CLAIMED = {
              "documents the assumption). Builder call sequences whose tree passes the verified derivation checker yield derivation trees printed as "
              "their own sentence whose text parses back to exactly that derivation (builder_eq_parsed, via C10.text_of_derivation_parses; the "
              "unrestricted statement is refuted by C2Profile().set_option('stage','x'): builder_eq_parsed_full_false), with byte arguments "
-             "round-tripping (builder_bytes_roundtrip).",
+             "round-tripping (builder_bytes_roundtrip). C2Profile.as_dict (token walk over the Reconstructor's items, and the cache wrapper) and 14 "
+             "builder methods (set_option, _pair, _enable, _header, _parameter, set_config_block, set_non_empty_config_block, "
+             "DataTransformBlock.__init__/add_step/add_termination/tree, from_execute_list, from_beacon_gate_option_strings, C2Profile.set_option) "
+             "are translated from their source text on every run (tools/gen/py_c2dict.py -> Gen/PyC2Dict.lean) and proved equal to the model "
+             "(C11Gen.gen_as_dict_walk for every item list incl. the raising branches, gen_as_dict_cached, gen_build_calls / gen_build_profile for "
+             "whole call sequences; asDict_eq_spec, dict_tracks_modification, builder_eq_parsed restated; 38 theorems).",
         note="Grammar facts (form shapes, label/arity lookup, list_props, builder attribute tables) are re-proved by decide on tables regenerated "
              "from the source on every run (tools/gen/grammar.py, profile_api.py). The parse-back direction holds for the model parser (C10.parse_complete); "
              "that Lark's LALR parser equals it is compared, not proved. The Reconstructor, the LALR "
              "parser and Python's str/list/dict semantics are modelled and compared on ~10k (quick) / ~110k (thorough) cases incl. an oracle "
              "written independently of the library. Known finding C11-comment-dns-resolver is modelled faithfully.",
-        design="§4 C11",
+        design="§4 C11, §12.8",
+        technique="Lean 4 theorems about an executable model; model tied to the code by source-to-Lean translation (proved equal) and by a "
+                  "model/implementation correspondence check",
     ),
     "C13": dict(
         text="Lean 4 proof: for every well-formed configuration, from_beacon_config does not raise (generation_total). Well-formed means any subset "
@@ -393,7 +407,10 @@ CLAIMED = {
              "accepts and any seek failing with OSError/OverflowError/ValueError; the pre-fix code is kept and refuted on a 512-byte witness). Lean's "
              "termination checker accepts every loop; the two fuel/guard-carrying loops are proved never to run out (settings_terminate, "
              "never_diverges_fromFile). The documented not-found values (not_found_values*) and step bounds (guard_scan_bound, artifact_scan_bound, "
-             "detector_candidates_bound, detector_step_bound) are theorems.",
+             "detector_candidates_bound, detector_step_bound) are theorems. For the PE entry points the statement also holds for the definitions "
+             "translated from the source text of pe.py (C08Gen.gen_only_value_error_pe*, 7 theorems: the translated helpers never raise, for every "
+             "file, start and maxrange); parse_raw_http, the needle / ArtifactKit scanners, the settings decoder, the Guardrails functions and the "
+             "extraction entry points are tied to their source text in C16Gen, C15Gen, C02Gen, C17Gen and C01Gen.",
         note="Wall-clock time is not a Lean notion: the proved bounds are counts, and the correspondence enforces a 30 s / 120 s watchdog on inputs "
              "whose worst case is kept small by construction (the two expensive paths, ~0.02 s per XorEncoded detector candidate and ~0.18 s per "
              "Guardrails marker, are linear in file size: observations, not violations). The composed models of C01/C02/C09/C15/C16/C17/C18 are tied to "
@@ -402,7 +419,9 @@ CLAIMED = {
              "length > remaining, 128-byte User-Agent at EOF, guard markers at offsets 0..6137, unterminated guard config) are run on both file kinds "
              "and outcome classes compared. CPython file objects, dissect.cstruct, urllib and memory allocation are modelled, not verified "
              "(a 4 GiB read(size) in the ArtifactKit scanner needs that much address space: recorded observation).",
-        design="§4 C08, §11",
+        design="§4 C08, §11, §12.8",
+        technique="Lean 4 theorems about an executable model; model tied to the code by source-to-Lean translation (proved equal) and by a "
+                  "model/implementation correspondence check",
     ),
 }
 
